@@ -151,8 +151,10 @@ func Walk(v Visitor, node ast.Node) {
 		}
 
 	case *ast.Func:
-		for _, child := range n.Body.Nodes {
-			Walk(v, child)
+		if n.Body != nil {
+			for _, child := range n.Body.Nodes {
+				Walk(v, child)
+			}
 		}
 
 	case *ast.FuncType:
